@@ -1731,11 +1731,11 @@ pub fn gen_reply(rng: &mut Rng, tys: &[Ty], bad: bool) -> String {
                 if single {
                     rng.pick(&["HELLO", "A,B", "  PAD  ", "\"Q\"", "", "x y", "\"A,B\"", "é"]).to_string()
                 } else {
-                    rng.pick(&["HELLO", "\"A,B\"", " PAD ", "\"\"", "", "x y", "\"Q\""]).to_string()
+                    rng.pick(&["HELLO", "\"A,B\"", " PAD ", "\"\"", "", "x y", "\"Q\"", "ZOË", "é日", "\"ü,ö\""]).to_string()
                 }
             }
-            Ty::Int => rng.pick(&["3", "-2", "0", " 7 ", "1E1", "&H1F", "&17", "", "+4", "2.9", "12"]).to_string(),
-            _ => rng.pick(&["3", "-2.5", "0", " 7 ", "1E1", "&H1F", "", "2.5D0", ".5", "100"]).to_string(),
+            Ty::Int => rng.pick(&["3", "-2", "0", " 7 ", "1E1", "&H1F", "&17", "", "+4", "2.9", "12", "&HD", "&H1D", "1D2", "&HAE"]).to_string(),
+            _ => rng.pick(&["3", "-2.5", "0", " 7 ", "1E1", "&H1F", "", "2.5D0", ".5", "100", "&HAD", "&HD", "2.5E-1", "1D1"]).to_string(),
         };
         fields.push(f);
     }
